@@ -287,3 +287,9 @@ Fixpoint stops_in (clk : nat -> Z) (ops : list op) (w : watch) (t : nat) : bool 
   | o :: r => effective_stop o w || effective_restart o w ||
               (let '((w', t'), _) := step clk o w t in stops_in clk r w' t')
   end.
+
+(* the literal reading of "elapsed never exceeds a requested maximum", for EVERY maximum — false for a
+   negative maximum, where it contradicts "elapsed is never negative" (Proofs/C13.v: elapsed_max_literal_refuted);
+   the theorems carry the zone hypothesis 0 <= maximum instead *)
+Definition C13_elapsed_max_full_statement : Prop :=
+  forall clk w t m c e, elapsed clk w t (Some m) = (c, Ok e) -> e <= m.
